@@ -67,6 +67,21 @@ def gen_case(rng, tier):
     nst = rng.choice([2, 2, 2, 3, 3, 4])
     docs = gen.rand_sequence(rng, nst, rng.choice([2, 3, 4]), kinds=('s',), pool_s=POOL, hostile=False, marker=gen.Marker(),
                              width=3, p_leaf=0.4)
+    # function nodes are containers too: an unprotected !call/!bind below a deleting parent must go (with priorities: only protected arguments stay)
+    fpath = None
+    d0 = docs[0]
+    conts = [(p, n) for p, n in emit.walk(d0) if n['t'] == 'map' and n['items']]
+    if conts and rng.random() < 0.35:
+        tp, tgt = rng.choice(conts)
+        it = rng.choice(tgt['items'])
+        fpath = tp + (it[0],)
+        # later stages act on its ancestors only (what is merged *onto* a function node follows C13's table, not this model)
+        for d in docs[1:]:
+            for p, n in list(emit.walk(d)):
+                if n['t'] == 'map' and p == fpath[:-1]:
+                    n['items'] = [x for x in n['items'] if x[0] != fpath[-1]]
+        it[1] = SP(rng.choice(['call', 'bind']), func='verif_targets.fn%d' % rng.randrange(5),
+                   args=M([[k, gen.scalar_node(rng, gen.rand_scalar(rng, False))] for k in rng.sample(['x', 'y', 0], rng.randrange(0, 3))]))
     out = []
     p_prio = rng.choice([0, 0.15, 0.3])
     p_del = rng.choice([0.1, 0.25, 0.4])
@@ -82,12 +97,24 @@ def gen_case(rng, tier):
                 d['items'] = [it for it in d['items'] if it[0] != k] + [[k, rng.choice([M([]), L([])])]]
                 d['items'][-1][1]['del'] = True
         out.append(_place(rng, d, i, p_prio, p_del))
-    # first document: specials make no sense there
+    if fpath is not None:
+        for d in out[1:]:
+            for p, n in list(emit.walk(d)):
+                if n['t'] == 'map' and p == fpath[:-1]:
+                    n['items'] = [x for x in n['items'] if x[0] != fpath[-1]]
     style = rng.choice(['flow', 'block'])
     r2 = random.Random(rng.randrange(1 << 30))
     prefix = [rng.choice(POOL) for _ in range(rng.choice([1, 2]))]
     return {'docs': out, 'texts': [emit.emit(d, style, flow_pred=lambda n: r2.random() < 0.3) for d in out],
             'wrapped': [emit.emit(c05.wrap(d, prefix), style) for d in out], 'prefix': prefix}
+
+
+def _native(tree):
+    """plain data of the *merged* tree (function nodes as the mapping of their arguments): nothing is evaluated here"""
+    from ..props.c17 import native
+    if tree is None:
+        return {}
+    return native(tree)
 
 
 def _deleting_meets_old(docs):
@@ -107,8 +134,9 @@ def _deleting_meets_old(docs):
 def run(case):
     docs, texts = case['docs'], case['texts']
     feats = ['stages=%d' % len(docs)]
+    from .c14 import to_model
     try:
-        exp = ('ok', model.plain(model.build(copy.deepcopy(docs), strict_domain=True)))
+        exp = ('ok', model.plain(model.build([to_model(d) for d in docs], strict_domain=True)))
     except model.OutOfDomain as e:
         return {'status': 'skip', 'feats': ['out_of_domain']}
     except model.ModelError as e:
@@ -127,27 +155,27 @@ def run(case):
                 feats.append('priority_tag')
     feats = sorted(set(feats))
     feats.append('expect_' + (exp[0] if exp[0] == 'ok' else exp[1]))
-    got = lib.outcome(lambda: lib.build(texts))
+    got = lib.outcome(lambda: _native(lib.merged(texts)))
     vio = []
     if exp[0] == 'ok':
         if got[0] != 'ok':
             vio.append({'mech': 'build-fails', 'what': f'model = {util.short(exp[1], 300)} but build {lib.describe(got)}; texts={texts!r}'})
-        elif util.typed(c05._plain(got[1])) != util.typed(exp[1]):
-            vio.append({'mech': 'differs-from-deletion-model', 'what': f'build = {util.short(c05._plain(got[1]), 400)} but the model gives {util.short(exp[1], 400)}; texts={texts!r}'})
+        elif util.typed(got[1]) != util.typed(exp[1]):
+            vio.append({'mech': 'differs-from-deletion-model', 'what': f'build = {util.short(got[1], 400)} but the model gives {util.short(exp[1], 400)}; texts={texts!r}'})
     else:
         if got[0] == 'ok':
-            vio.append({'mech': 'missing-error', 'what': f'model expects {exp[1]} but build succeeded with {util.short(c05._plain(got[1]), 300)}; texts={texts!r}'})
+            vio.append({'mech': 'missing-error', 'what': f'model expects {exp[1]} but build succeeded with {util.short(got[1], 300)}; texts={texts!r}'})
         elif lib.err_kind(got[1]) != exp[1]:
             vio.append({'mech': 'wrong-error-class', 'what': f'model expects {exp[1]}, build {lib.describe(got)}; texts={texts!r}'})
     # model-free cross-check: wrapped under extra keys
     if got[0] == 'ok' and got[1]:
-        w = lib.outcome(lambda: lib.build(case['wrapped']))
-        want = c05._plain(got[1])
+        w = lib.outcome(lambda: _native(lib.merged(case['wrapped'])))
+        want = got[1]
         for k in reversed(case['prefix']):
             want = {k: want}
-        if w[0] != 'ok' or util.typed(c05._plain(w[1])) != util.typed(want):
+        if w[0] != 'ok' or util.typed(w[1]) != util.typed(want):
             if not c05._root_emptied(texts):
-                vio.append({'mech': 'nested-differs-from-top-level', 'what': f'top-level result {util.short(c05._plain(got[1]), 300)} but wrapped under {case["prefix"]}: {lib.describe(w)}; texts={texts!r}'})
+                vio.append({'mech': 'nested-differs-from-top-level', 'what': f'top-level result {util.short(got[1], 300)} but wrapped under {case["prefix"]}: {lib.describe(w)}; texts={texts!r}'})
     res = {'status': 'violation' if vio else 'ok', 'nontrivial': _deleting_meets_old(docs), 'feats': feats, 'sig': util.sig(texts), 'evals': 2}
     if vio:
         res['violations'] = vio
